@@ -660,7 +660,8 @@ MemberChangeFor(n, nc, adopt, target) ==
                          !.match = [q \in Node |-> IF q = target THEN 0 ELSE s.match[q]],
                          !.sfile = [q \in Node |-> IF q = target THEN NoFile ELSE s.sfile[q]],
                          !.soff = [q \in Node |-> IF q = target THEN 0 ELSE s.soff[q]]]
-         s2 == IF SingleServer(s1, n) THEN [s1 EXCEPT !.commit = CommitIndexOf(s1, n)] ELSE s1 IN
+         \* (as a submission, a membership request starts a replication round at once: IdleNode)
+         s2 == IdleNode(IF SingleServer(s1, n) THEN [s1 EXCEPT !.commit = CommitIndexOf(s1, n)] ELSE s1) IN
      /\ ns' = [ns EXCEPT ![n] = Fin(s, s2)]
      /\ Hist1(n, s2)
   /\ UNCHANGED net
@@ -924,10 +925,17 @@ AEReply(m) ==
          \* weakening RejectRetriesInRound: a rejected request is retried at once - with the
          \* round's response counter, so that one follower is counted twice
          retry == IF "RejectRetriesInRound" \in W /\ live /\ ~m.reply.ok /\ m.reply.term <= s.term /\ c.role = "L" /\ c.next[p] > c.li.idx
-                    THEN {[AERequest(c, n, p) EXCEPT !.kind = "aeq"] @@ [to |-> p, round |-> m.round]} ELSE {} IN
-     /\ ns' = [ns EXCEPT ![n] = Fin(s, c)]
-     /\ Hist1(n, c)
-     /\ net' = (net \ {m}) \cup retry
+                    THEN {[AERequest(c, n, p) EXCEPT !.kind = "aeq"] @@ [to |-> p, round |-> m.round]} ELSE {}
+         \* a rejection that moves the follower's next index to or below the compaction boundary is
+         \* followed at once, by the same goroutine, by the next piece of the snapshot (request grain)
+         isnow == "is" \in AsyncKinds /\ live /\ ~m.reply.ok /\ m.reply.term <= s.term /\ c.role = "L"
+                  /\ c.li.idx > 0 /\ c.next[p] <= c.li.idx /\ Linked(n, p)
+         file == IF c.sfile[p].idx # 0 THEN c.sfile[p] ELSE c.snap
+         ism == IF isnow THEN {[ISRequest([c EXCEPT !.sfile[p] = file], n, p) EXCEPT !.kind = "isq"] @@ [to |-> p, round |-> m.round]} ELSE {}
+         c2 == IF isnow THEN [c EXCEPT !.sfile[p] = file, !.soff[p] = SnapSize] ELSE c IN
+     /\ ns' = [ns EXCEPT ![n] = Fin(s, c2)]
+     /\ Hist1(n, c2)
+     /\ net' = (net \ {m}) \cup retry \cup ism
   /\ UNCHANGED budget
 
 \* submitReadOnlyOperation (linearizable): read index, first round that may confirm it, and a
